@@ -609,6 +609,237 @@ def replay_served(report, r):
         srv.close()
 
 
+# ---------------------------------------------------------------------------------------------
+# large answers with ties: hundreds to thousands of matches, many of them created in the same second
+# ---------------------------------------------------------------------------------------------
+# Everything above runs with max_limit = 20, so no answer is ever longer than 20 rows.  A relay as shipped answers with up to
+# 6000 events (config.yaml: max_limit 6000), and anything a backend does to deliver a LONG answer — reading it in batches /
+# pages / chunks, continuing a scan from a remembered position, merging partial results — is invisible to 20-row answers.
+# What such machinery has to get right is exactly this property: the events delivered are the newest min(limit, matches)
+# matches, each once.  The classical way to get it wrong is a continuation keyed on created_at, which is not unique: events of
+# one second are skipped or repeated where a batch ends.  So this family builds stores of several hundred to a few thousand
+# events in which runs of 2-6 events share their created_at EVERYWHERE (about two thirds of all neighbours in newest-first
+# order are ties) and, on top, a run is forced across every position that is a multiple of a round number (100, 250, 256,
+# 500, 512, 1000, 1024: the sizes people give to batches — none of them is taken from the implementation, and the dense
+# random runs cover every other size with high probability).  One attribute is uniform per store (all kind 1 / all one
+# author / every event tagged t=a), so that a filter exists whose newest-first order IS the store's and meets every forced
+# run; the other filters select ~90 % subsets with their own orders.  The store is inserted in shuffled order.
+#
+# max_limit is raised to the shipped default (6000 > every quick store; the thorough tier adds a store above it) the way a
+# deployment sets it: SQL subscriptions are made with default_limit=6000 (what BaseSubscription captures from Config at import),
+# LMDB plans read Config.max_limit, which is set for the duration of the case.  Answers are taken where the backends hand them
+# over — DBStorage.run_query on the query built by the real Subscription.build_query; the real planner + execute_one_plan —
+# without the Lean model (its store is a list: loading thousands of events is quadratic), judged by the oracle below only.
+# Limits: just below / at / above the round multiples, m-1, m, m+1, above the store size, above max_limit, null.
+
+SHIPPED_MAX_LIMIT = 6000       # nostr_relay/config.yaml as shipped
+ROUND_SIZES = (100, 250, 256, 500, 512, 1000, 1024)
+LARGE_AUTHORS = gen.AUTHORS[2:4]
+
+
+def round_positions(n):
+    return sorted({k * r for r in ROUND_SIZES for k in range(1, n // r + 1) if k * r < n})
+
+
+def large_store(rng, n, uniform):
+    """n events; position p (0 = newest) has stamps[p]; ties: random runs everywhere + a run across every round position"""
+    same = [False] * n              # same[p]: position p shares its second with position p-1
+    p = 0
+    while p < n:
+        run = rng.choice([1, 1, 2, 2, 3, 3, 4, 5, 6])
+        for k in range(p + 1, min(n, p + run)):
+            same[k] = True
+        p += run
+    for m in round_positions(n):
+        run = rng.randint(2, 6)
+        start = rng.randint(max(0, m - run + 1), m - 1)       # the run contains positions m-1 and m
+        for k in range(start + 1, min(n, start + run)):
+            same[k] = True
+    t = gen.T0 + 20 * n
+    evs, seen = [], set()
+    for p in range(n):
+        if not same[p]:
+            t -= rng.choice([1, 1, 1, 2, 7])
+        i = "%064x" % rng.getrandbits(256)
+        while i in seen:
+            i = "%064x" % rng.getrandbits(256)
+        seen.add(i)
+        evs.append({"id": i, "pubkey": LARGE_AUTHORS[0] if uniform == "author" or rng.random() < 0.9 else LARGE_AUTHORS[1],
+                    "created_at": t, "kind": 1 if uniform == "kind" or rng.random() < 0.9 else 7,
+                    "tags": [["t", "a"]] + ([["t", "b"]] if rng.random() < 0.1 else []),
+                    "content": "n%d" % p, "sig": "00" * 64})
+    rng.shuffle(evs)                # not stored in time order
+    return evs
+
+
+def large_filters(rng, evs):
+    fs = [{"kinds": [1]}, {"authors": [LARGE_AUTHORS[0]]}, {"authors": [LARGE_AUTHORS[0]], "kinds": [1]}, {"#t": ["a"]}]
+    # paging: the same, below some stored second
+    g = dict(rng.choice(fs))
+    g["until"] = rng.choice(evs)["created_at"] + rng.choice([0, 1])
+    return fs + [g]
+
+
+def large_limits(rng, m, k):
+    """k limits chosen against the number m of matches: around the round multiples up to m, around m, above everything"""
+    near = sorted({r + d for r in round_positions(m + 2) for d in (-1, 0, 1)})
+    out = rng.sample(near, min(len(near), k - 2)) if k > 2 else []
+    if near:
+        out.append(rng.choice([x for x in near if x >= near[-1] - 30]))       # one near the last multiple below m
+    out.append(rng.choice([m - 1, m, m, m + 1]))
+    out.append(rng.choice([m + 57, SHIPPED_MAX_LIMIT - 1, SHIPPED_MAX_LIMIT, SHIPPED_MAX_LIMIT + 1, 10 ** 6, None]))
+    return [x for x in out if x is None or x >= 0]
+
+
+class raised_max_limit:
+    """Config.max_limit = cap while the case runs (the LMDB planner reads it when it plans)"""
+
+    def __init__(self, cap):
+        from nostr_relay.config import Config
+        self.config, self.cap = Config, cap
+
+    def __enter__(self):
+        self.saved = self.config.max_limit
+        self.config.max_limit = self.cap
+
+    def __exit__(self, *a):
+        self.config.max_limit = self.saved
+
+
+def large_load(scen, backend, evs):
+    """the events through the real add path of the backend (no validators, no model); returns the set of stored ids"""
+    if backend == "sql":
+        impl = scen.sql.impl
+        impl.reset()
+
+        async def go():
+            for e in evs:
+                await impl.storage.add_event(dict(e))
+        impl.run(go())
+        return impl.event_ids()
+    impl = scen.kv.impl
+    impl.reset()
+    impl.run_tasks([("add", impl.kv.Event(**e)) for e in evs])
+    return set(impl.stored())
+
+
+def large_ask(scen, backend, f, cap):
+    """ids in the order delivered, or None when the filter is refused / not planned"""
+    if backend == "sql":
+        events, text, cleaned = scen.sql.impl.query([dict(f)], default_limit=cap)
+        return None if events is None else [e.id for e in events]
+    q = validate_filter(f)
+    if q is None:
+        return None
+    impl = scen.kv.impl
+    plan = impl.plan(q)
+    return None if plan is None else impl.execute(plan)
+
+
+def large_oracle(report, backend, f, q, sent, stored, by_id, cap, payload):
+    """The property over a delivered answer, max_limit = cap.  Returns (failed, newest-first list of the strict matches)."""
+    strict = [i for i in stored if i in by_id and spec.matches(q, by_id[i], True)]
+    incl = {i for i in stored if i in by_id and spec.matches(q, by_id[i], False)}
+    ts = {i: by_id[i]["created_at"] for i in incl}
+    strict.sort(key=lambda i: (-ts[i], i))
+    allowed = cap if q.limit is None else min(q.limit, cap)
+    where = "%s, store of %d events, max_limit %d: %r" % (backend, len(stored), cap, f)
+    if len(sent) != len(set(sent)):
+        report.property_failure("%s is sent an event twice (%d events, %d distinct)" % (where, len(sent), len(set(sent))), payload, None)
+        return True, strict
+    if any(i not in incl for i in sent):
+        report.property_failure("%s is sent %d event(s) that are not stored events matching it"
+                                % (where, len([i for i in sent if i not in incl])), payload, None)
+        return True, strict
+    if len(sent) > allowed:
+        report.property_failure("%s is sent %d events, the limit allows at most %d" % (where, len(sent), allowed), payload, None)
+        return True, strict
+    omitted = set(strict) - set(sent)
+    if sent and omitted:
+        oldest_sent = min(ts[i] for i in sent)
+        newer = [i for i in omitted if ts[i] > oldest_sent]
+        if newer:
+            report.property_failure("%s: %d stored matching event(s) left out although newer than the oldest sent one (sent %d of %d "
+                                    "matches, limit allows %d; newest one left out is number %d of the matches, newest first)"
+                                    % (where, len(newer), len(sent), len(strict), allowed,
+                                       1 + min(strict.index(i) for i in newer)), payload, None)
+            return True, strict
+    if omitted and allowed >= len(incl):
+        report.property_failure("%s: the limit allows %d and only %d stored events match, yet %d of them were left out"
+                                % (where, allowed, len(incl), len(omitted)), payload, None)
+        return True, strict
+    if len(sent) < min(allowed, len(strict)):
+        report.property_failure("%s is sent %d events although %d stored events match and the limit allows %d"
+                                % (where, len(sent), len(strict), allowed), payload, None)
+        return True, strict
+    return False, strict
+
+
+def large_req(report, scen, backend, f, evs, by_id, stored, cap):
+    """one REQ on the loaded large store; True when the property failed"""
+    q = validate_filter(f)
+    if q is None or not spec.is_wellformed_conjunction(q):
+        return False
+    payload = {"backend": backend, "large": True, "max_limit": cap, "filters": [f], "events": evs}
+    try:
+        sent = large_ask(scen, backend, f, cap)
+    except Exception as e:
+        report.property_failure("%s raised %r for %r on a store of %d events" % (backend, e, f, len(evs)), payload, None)
+        return True
+    if sent is None:
+        report.count("large_unanswered_" + backend)
+        return False
+    failed, strict = large_oracle(report, backend, f, q, sent, stored, by_id, cap, payload)
+    allowed = cap if q.limit is None else min(q.limit, cap)
+    window = strict[:allowed]
+    wts = [by_id[i]["created_at"] for i in window]
+    tied = sum(1 for a, b in zip(wts, wts[1:]) if a == b)
+    # in the filter's OWN newest-first order: round positions inside the answer that a run of equal seconds lies across
+    across = [m for m in round_positions(len(window)) if wts[m - 1] == wts[m]]
+    report.count("large_reqs_" + backend)
+    report.count("large_limit_%s_matches" % ("below" if allowed < len(strict) else "equals" if allowed == len(strict) else "above"))
+    report.count("large_answers_%s" % ("up_to_100" if len(window) <= 100 else "up_to_500" if len(window) <= 500 else
+                                       "up_to_1000" if len(window) <= 1000 else "above_1000"))
+    if across:
+        report.count("large_answers_with_a_tie_across_a_round_position")
+    if len(window) < len(strict) and wts and by_id[strict[len(window)]]["created_at"] == wts[-1]:
+        report.count("large_limit_cuts_a_run_of_equal_seconds")
+    report.case(("large", backend, repr(f), len(evs), cap), nontrivial=tied > 0 and len(window) > common.MAX_LIMIT,
+                sample={"backend": backend, "large": True, "filters": [f], "returned": len(sent), "matching": len(strict),
+                        "ties_in_answer": tied, "round_positions_with_a_tie_across": len(across)})
+    return failed
+
+
+def run_large_case(report, scen, rng, n, uniform, limits_per_filter, cap=SHIPPED_MAX_LIMIT):
+    evs = large_store(rng, n, uniform)
+    by_id = {e["id"]: e for e in evs}
+    reqs = []
+    for g in large_filters(rng, evs):
+        q = validate_filter(g)
+        m = len([e for e in evs if q is not None and spec.matches(q, e, True)])
+        for lim in large_limits(rng, m, limits_per_filter):
+            reqs.append(dict(g, limit=lim))
+    for backend in ("sql", "kv"):
+        stored = large_load(scen, backend, evs)
+        report.count("large_stores_" + backend)
+        report.count("large_events_stored_" + backend, len(stored))
+        # after loading: resetting a bench re-runs the harness' path setup, which sets max_limit to its own small value
+        with raised_max_limit(cap):
+            for f in reqs:
+                if large_req(report, scen, backend, f, evs, by_id, stored, cap):
+                    # one failing input per store and backend: the replay file carries the whole store
+                    break
+
+
+def replay_large(report, scen, r):
+    evs = r["events"]
+    by_id = {e["id"]: e for e in evs}
+    cap = r.get("max_limit") or SHIPPED_MAX_LIMIT
+    stored = large_load(scen, r["backend"], evs)
+    with raised_max_limit(cap):
+        large_req(report, scen, r["backend"], dict(r["filters"][0]), evs, by_id, stored, cap)
+
+
 def run_case(report, scen, rng):
     evs = dense_store(rng)
     scen.load(evs)
@@ -631,6 +862,9 @@ def run_case(report, scen, rng):
 def replay_one(report, scen, r):
     if r.get("served"):
         replay_served(report, r)
+        return
+    if r.get("large"):
+        replay_large(report, scen, r)
         return
     scen.load(r["events"])
     if r.get("multi"):
@@ -665,7 +899,16 @@ def run(report, tier, seed):
         "limit not smaller than the number of all matches truncates nothing; answers shorter than min(limit, visible matches) — "
         "the validator runs after the limit — are counted as served_output_validator_short_answers, judged only when "
         "known_findings.json has an entry %s); non-trivial = an event with an expiration tag / a hidden event lies among the "
-        "newest min(limit, matches) matches" % (common.MAX_LIMIT, OUTPUT_CHECK_CLASS))
+        "newest min(limit, matches) matches; "
+        "large answers with ties: stores of 600 / 1100 / 2300 events (thorough: twelve more of 300-3100, 4200 and max+500) inserted in "
+        "shuffled order, in which runs of 2-6 events share their created_at everywhere (about two thirds of the neighbours in "
+        "newest-first order) and a run lies across every multiple of 100 / 250 / 256 / 500 / 512 / 1000 / 1024, one attribute uniform "
+        "per store, with max_limit raised to the shipped %d, x filters ONE kind / ONE author / author+kind / one tag value / one of "
+        "them with until x limits just below / at / above those multiples, m-1, m, m+1, m+57, max-1, max, max+1, 10^6, null, on "
+        "both backends (DBStorage.run_query on the query of the real Subscription.build_query; real planner + execute_one_plan; no "
+        "model): no duplicates, only stored matches, at most min(n, max_limit), none left out newer than a sent one, nothing left "
+        "out when the limit suffices, exactly min(n, max_limit, matches) events; non-trivial = the answer is longer than %d events "
+        "and contains events of one second" % (common.MAX_LIMIT, OUTPUT_CHECK_CLASS, SHIPPED_MAX_LIMIT, common.MAX_LIMIT))
     report.assumptions += ["Config.max_limit is set to %d by the harness before the storage modules are imported" % common.MAX_LIMIT]
     try:
         for e in report.known:
@@ -680,6 +923,14 @@ def run(report, tier, seed):
             run_served_case(report, rng, tier, reqs=8 if tier == "quick" else 14)
         for i in range(4 if tier == "quick" else 60):
             run_served_case(report, rng, tier, reqs=8 if tier == "quick" else 14, whitelist=[SERVED_AUTHORS[0]])
+        # last (the cases above stay the same cases for a given seed; the benches' model state is not used from here on):
+        # large answers with ties, max_limit as shipped
+        large = [(600, "kind"), (1100, "author"), (2300, "tag")]
+        if tier != "quick":
+            large += [(rng.choice([300, 513, 777, 1025, 1500, 2049, 3100]), rng.choice(["kind", "author", "tag"])) for _ in range(12)]
+            large += [(4200, "kind"), (SHIPPED_MAX_LIMIT + 500, "author")]
+        for n, uniform in large:
+            run_large_case(report, scen, rng, n, uniform, limits_per_filter=4 if tier == "quick" else 8)
     finally:
         scen.close()
         drv.close()
